@@ -20,7 +20,7 @@ func init() {
 			"no key of that literal carries a field the running program can write unless it is emptied afterwards (R30b); the snapshots are taken only in the first-reset block, are carried " +
 			"over themselves, and didReset is set on every path (R30c). For incremental use: Run calls Reset only on a Runner that was never reset and refreshes the expansion options before " +
 			"executing anything (R30d); every runtime write to the option table is followed by updateExpandOpts on every path to the function's exit, so the rest of a whole-file run sees what " +
-			"a next Run call would see (R30e).",
+			"a next Run call would see (R30e); storage that a snapshot aliases (the positional parameters) is never written in place (R30f); every successful overlayEnviron.Set leaves an entry in the overlay, which is what Run's additive update of Runner.Vars relies on (R30g).",
 		NotDecided:  "that the program-visible effect of each carried value is the same as on a new Runner (value-level); the incremental clause beyond option refresh (traps, `exit` inside functions).",
 		Assumptions: []string{"Runner fields are written only through selector assignments, address-taking and composite literals (no reflection/unsafe in package interp: checked by C29)"},
 		Controls:    c30Controls,
@@ -38,6 +38,8 @@ func runC30(p *Prog, r *Result) {
 	r.Rule("R30b", "every key of Reset's Runner literal reads only configuration, set-once or snapshot fields, or the field is emptied after the literal", 20)
 	r.Rule("R30c", "snapshot (orig*) fields are assigned only in the first-reset block and carried over by the literal; didReset is set on every path out of Reset and nowhere else", 7)
 	r.Rule("R30d", "Run calls Reset only under !didReset and calls fillExpandConfig (which always reaches updateExpandOpts) before executing the node", 2)
+	r.Rule("R30f", "storage aliased by a first-reset snapshot (Params and origParams share one backing array) is never written in place: SSA ownership rule of C27 restricted to those fields", 0)
+	r.Rule("R30g", "every successful return of overlayEnviron.Set is preceded on every path by a store into the overlay's values (value or unset tombstone): Run publishes Runner.Vars additively from Each", 2)
 	r.Rule("R30e", "every runtime write to the option table (store through a pointer into Runner.opts, indexed store, or applying a RunnerOption) reaches updateExpandOpts on every path to the function exit", 2)
 
 	runnerT := lookupType(pkg, "Runner")
@@ -331,6 +333,67 @@ func runC30(p *Prog, r *Result) {
 		_, inLit := litKeys[dr]
 		r.Check(okPlace && okPath && !inLit, "R30c", "interp.(Runner).Reset#didReset", resetFD.Pos(), "set to true on every path after the literal, written nowhere else",
 			"didReset is not set on every path out of Reset (or is written elsewhere): the first-reset block, which snapshots the configuration, runs again on a Runner that already ran programs")
+	}
+
+	// ---- R30f: snapshots of slice/map fields alias the live field's storage
+	{
+		var aliased []string
+		for src, o := range snapOf {
+			switch src.Type().Underlying().(type) {
+			case *types.Slice, *types.Map:
+				aliased = append(aliased, "Runner."+src.Name())
+				_ = o
+			}
+		}
+		sort.Strings(aliased)
+		sub := newResult(r.Prop, r.prog)
+		checkOwnership(p, sub, "R30f", false)
+		n := 0
+		for _, o := range sub.Obls {
+			for _, a := range aliased {
+				if strings.Contains(o.Key, a) {
+					if o.Status == stBad {
+						o.Detail += " — and Reset restores this storage from its first-reset snapshot, which shares the backing array: the reset Runner does not get the configured value back"
+					}
+					r.Obls = append(r.Obls, o)
+					n++
+				}
+			}
+		}
+		r.Fatal = append(r.Fatal, sub.Fatal...)
+		r.Notef("R30f: snapshot-aliased reference fields: %s; %d write sites on them in interp/expand/internal (each must act on owned storage)", strings.Join(aliased, ", "), n)
+	}
+
+	// ---- R30g
+	if fd := p.FuncDecl("interp", "overlayEnviron.Set"); fd != nil {
+		g := NewFGraph(info, fd.Body, nil)
+		isStore := func(n ast.Node) bool {
+			as, ok := n.(*ast.AssignStmt)
+			if !ok {
+				return false
+			}
+			for _, l := range as.Lhs {
+				if ix, ok := ast.Unparen(l).(*ast.IndexExpr); ok {
+					if fv := selectorField(info, ix.X); fv != nil && fv.Name() == "values" {
+						return true
+					}
+				}
+			}
+			return false
+		}
+		for _, b := range g.Blocks {
+			for i, n := range b.Nodes {
+				rs, ok := n.(*ast.ReturnStmt)
+				if !ok || len(rs.Results) != 1 || !isNilIdent(info, rs.Results[0]) {
+					continue
+				}
+				bad := reachesWithout(g, b, i, isStore)
+				r.Check(!bad, "R30g", "interp.(overlayEnviron).Set#return nil", rs.Pos(), "a store into o.values precedes it on every path",
+					"overlayEnviron.Set can report success without leaving an entry (value or unset tombstone) in the overlay: Run merges the overlay into Runner.Vars additively, so a variable set by one Run call and unset by a later one stays in Vars, unlike in a whole-file run")
+			}
+		}
+	} else {
+		r.Fatalf("anchor overlayEnviron.Set not found")
 	}
 
 	// ---- R30d
@@ -713,6 +776,10 @@ func enclosingStmt(body *ast.BlockStmt, e ast.Node) ast.Node {
 }
 
 var c30Controls = []Control{
+	{Name: "unset-without-tombstone", Rule: "R30g", WantKey: "overlayEnviron).Set#return nil", File: "interp/vars.go",
+		Mutate: ctlReplace("overlayEnviron.Set", "delete(o.values, normalized)", "delete(o.values, normalized)\n\t\tif o.parent == nil {\n\t\t\treturn nil\n\t\t}", 0)},
+	{Name: "shift-compacts-params-in-place", Rule: "R30f", WantKey: "Runner.Params", File: "interp/builtin.go",
+		Mutate: ctlReplace("Runner.builtin", "r.Params = r.Params[n:]", "r.Params = slices.Delete(r.Params, 0, n)", 0)},
 	{Name: "handler-dropped-by-reset", Rule: "R30a", WantKey: "Runner.accessHandler#survives Reset", File: "interp/api.go",
 		Mutate: ctlReplaceAnywhere("\t\taccessHandler:  r.accessHandler,\n\n", "\n")},
 	{Name: "dir-from-running-state", Rule: "R30a", WantKey: "Runner.Dir#survives Reset", File: "interp/api.go",
